@@ -4,3 +4,4 @@ pub mod c03;
 pub mod c04;
 pub mod c07;
 pub mod c13;
+pub mod c16;
